@@ -35,6 +35,11 @@ type Pkg struct {
 // Load parses the non-test Go files of dir that are built with the given tags.
 // The process must run with cwd inside the module (so the source importer resolves imports).
 func Load(dir string, tags ...string) *Pkg {
+	// experiments on a scratch worktree (bin/try-seeded): VERIF_REPO re-roots every "/repo/..." path.
+	// The registered checks never set it, so they read /repo itself.
+	if alt := os.Getenv("VERIF_REPO"); alt != "" && alt != "/repo" && (dir == "/repo" || strings.HasPrefix(dir, "/repo/")) {
+		dir = strings.TrimRight(alt, "/") + dir[len("/repo"):]
+	}
 	p := &Pkg{Dir: dir, Fset: token.NewFileSet()}
 	ents, err := os.ReadDir(dir)
 	if err != nil {
